@@ -222,3 +222,34 @@ _m("C10",
    "histories (the field maps are decided under C11).",
    "pipeline recovery from symbolic terms + decision-row extraction of the stage closures + item facts of the trait impls",
    "exhaustive static analysis of the listing algorithm's shape in every configuration (necessary conditions)")
+
+_m("C11",
+   "Field agreement at every place an entry changes representation, in every configuration. Write side: the record aggregate "
+   "of each INDEX_INSERT has key ← the key parameter unchanged, integrity ← opts.sri.map(to_string), time ← "
+   "opts.time.unwrap_or_else(NOW), size ← opts.size (else 0), metadata ← opts.metadata (else JSON null), raw_metadata ← "
+   "opts.raw_metadata, and that aggregate is what is serialised. Commit side: at every COMMIT's insert call the size is "
+   "definitely Some — declared, or assigned from the writer's own byte counter (gate-cut reachability). Read side: every "
+   "index::Metadata aggregate in the crate takes each field from the same-named field of the validated record and its integrity "
+   "from the parse of the record's string. Builder side: each WriteOpts setter stores Some(argument) in its own field and "
+   "returns self. Schema side: the derived Serialize emits and the derived Deserialize accepts exactly the JSON names key, "
+   "integrity, time, size, metadata, raw_metadata in that order, each from its own struct field, and serde_json is instantiated "
+   "with the record type on both sides. NOW = SystemTime::now().duration_since(UNIX_EPOCH).as_millis().",
+   "That serde_json round-trips a particular value (128-bit integers, decimals, escapes) — a runtime property of the parser; "
+   "the values of the defaults at run time.",
+   "symbolic field-provenance maps per aggregate + gate-cut reachability for the size default + constants of the derived serde impls",
+   "exhaustive static analysis of field provenance in every configuration (necessary conditions)")
+
+_m("C17",
+   "The format descriptor extracted from the MIR of the path, hash, insert and reader roles of every configuration equals the "
+   "specification in the property: bucket path = cache / ('index-v' ++ '5') / h[0..2] / h[2..4] / h[4..] with h = hex(SHA-1(key "
+   "bytes, unchanged)); content path = cache / ('content-v' ++ '2') / <algorithm Display> / x[0..2] / x[2..4] / x[4..] with "
+   "(algorithm, x) = sri.to_hex(); record = \"\\n\" ++ hex(SHA-256(json)) ++ \"\\t\" ++ json in every insert (sync and async "
+   "agree); JSON fields key, integrity, time, size, metadata, raw_metadata in that order with integrity: Option<String> (null = "
+   "removal); every reader splits fields on TAB and validates SHA-256-hex(fields[1]) == fields[0]. Path construction is "
+   "normalised to segments (join, push and '/' inside format literals all yield segments; constants are evaluated), so the "
+   "comparison is semantic: building the same path another way yields the same descriptor, while a changed version string, "
+   "digest, split point, separator or field name changes it. This is not a proxy: the property is that these values are fixed.",
+   "Interoperability runs against an independent implementation (needs execution); the JSON text details produced by serde_json; "
+   "line splitting semantics of lines().",
+   "format-descriptor extraction from symbolic terms + comparison with the specification table",
+   "exhaustive static extraction of the format constants actually used by the code in every configuration")
